@@ -181,6 +181,8 @@ def check(ctx):
                required="every parameter path __eq__ depends on is printed", mod=ro.mod, node=rfn, sig="eq-subset-repr:" + ",".join(missing))
         if "__repr__" in c.methods:
             check_repr_syntax(ctx, m, c, rfn)
+            check_repr_omissions(ctx, m, c, rfn)
+        check_normalised_access(ctx, m, c)
     check_one_box(ctx, m)
     check_total_order(ctx, m)
     ctx.floor("R03.1", 14)
@@ -220,6 +222,71 @@ def check_repr_syntax(ctx, m, c, rfn):
             ctx.ob("R03.3", "%s.__repr__:keywords" % c.q, not bad, found="keywords %s in %r" % (sorted(kws), s), required="parameters of %s.__init__: %s" % (c.name, sorted(params)),
                    mod=c.mod, node=r, sig="repr-kw:" + ",".join(bad), trivial=not kws)
     return n
+
+
+def check_repr_omissions(ctx, m, c, rfn):
+    """a constructor argument may be left out of the repr only when it has its default value: the omission test must be
+    `x is None` for a None default (truthiness would also drop 0, [], ''), truthiness / == 0 only for a 0 or False default"""
+    init = m.lookup(c, "__init__")
+    if not (init and isinstance(init[1], ast.FunctionDef)):
+        return
+    a = init[1].args
+    names = [x.arg for x in a.args]
+    defaults = dict(zip(names[len(names) - len(a.defaults):], a.defaults))
+    if a.kwarg:
+        defaults.setdefault("data", ast.Constant(value=None))
+    self_ = rfn.args.args[0].arg
+    for n in ast.walk(rfn):
+        if not isinstance(n, ast.IfExp):
+            continue
+        empt = [b for b in (n.body, n.orelse) if isinstance(b, ast.Constant) and b.value == ""]
+        if len(empt) != 1:
+            continue
+        other = n.orelse if empt[0] is n.body else n.body
+        fields = sorted({x.attr for x in ast.walk(other) if isinstance(x, ast.Attribute) and isinstance(x.value, ast.Name) and x.value.id == self_})
+        for f in fields:
+            p = f.lstrip("_")
+            if p not in defaults:
+                continue
+            d = defaults[p]
+            t = ast.unparse(n.test)
+            omitted_when_true = empt[0] is n.body
+            # only the truthiness idiom is judged: `'' if not self.x else ...` / `... if self.x else ''`
+            if t not in ("not %s.%s" % (self_, f), "%s.%s" % (self_, f), "not %s.%s" % (self_, p), "%s.%s" % (self_, p)):
+                continue
+            if isinstance(d, ast.Constant) and d.value is None:
+                ok = False
+                req = "omitted only when %s is None (its default); a truthiness test also drops 0, 0.0, [], {}, ''" % f
+            elif isinstance(d, ast.Constant) and d.value in (0, False):
+                ok = True
+                req = "omitted only when %s is %r (its default)" % (f, d.value)
+            else:
+                continue
+            ctx.ob("R03.3", "%s.__repr__:omits-%s" % (c.q, f), ok, found="`%s` omitted %s `%s`" % (f, "when" if omitted_when_true else "unless", t), required=req, mod=c.mod,
+                   node=n, sig="repr-omission-" + f)
+
+
+def check_normalised_access(ctx, m, c):
+    """a field wrapped by a normalising property (list(self._x)) must be read through the property by __eq__/__hash__/__repr__:
+    the raw field may be a list or a tuple depending on how the value was built"""
+    try:
+        prov = init_prov(m, c)
+    except Exception:
+        return
+    for meth in ("__eq__", "__hash__", "__repr__"):
+        if meth not in c.methods:
+            continue
+        fn = c.methods[meth][0]
+        for n in ast.walk(fn):
+            if isinstance(n, ast.Attribute) and n.attr.startswith("_") and isinstance(n.value, ast.Name) and n.value.id in ("self", "other"):
+                prop = m.lookup(c, n.attr[1:])
+                stored_as_given = isinstance(prov.get(n.attr), tuple) and prov[n.attr][0] == "param"
+                if stored_as_given and prop and prop[2] == "property" and isinstance(prop[1], ast.FunctionDef):
+                    body = [s_ for s_ in prop[1].body if not (isinstance(s_, ast.Expr) and isinstance(s_.value, ast.Constant))]
+                    if len(body) == 1 and isinstance(body[0], ast.Return) and isinstance(body[0].value, ast.Call) and ast.unparse(body[0].value.func) in ("list", "tuple"):
+                        ctx.ob("R03.2", "%s.%s:raw-%s" % (c.q, meth, n.attr), False, found="reads %s.%s" % (n.value.id, n.attr),
+                               required="read through the normalising property `%s` (the raw field may be a list or a tuple)" % n.attr[1:], mod=c.mod, node=n,
+                               sig="raw-field-" + n.attr)
 
 
 def check_one_box(ctx, m):
